@@ -489,6 +489,46 @@ func tryAPIDamage(c *DmgAPICase, st *Stats, m *Model, opts klevdb.Options, files
 			}
 		}
 	}
+	if d.overwrite && len(d.desc)%3 == 0 {
+		deleteThenReread(st, m, l, segs, d, calls)
+	}
+}
+
+// deleteThenReread: a Delete of an undamaged offset stored in the damaged segment file either fails or
+// succeeds, but afterwards still no read may return a message that differs from what was published (a
+// rewrite must not launder damaged bytes under a fresh checksum).
+func deleteThenReread(st *Stats, m *Model, l klevdb.Log, segs []SegInfo, d apiDamage, calls []apiCall) {
+	var victim int64 = -1
+	for _, r := range segs[d.seg].Recs {
+		if _, live := m.Find(r.Off); live && !d.damaged[r.Off] {
+			victim = r.Off
+			break
+		}
+	}
+	if victim < 0 {
+		return
+	}
+	del, _, err := l.Delete(map[int64]struct{}{victim: {}})
+	st.Inc("delete_in_damaged_segment")
+	if err != nil {
+		st.Inc("delete_in_damaged_segment_failed")
+	}
+	gone := map[int64]bool{}
+	for _, x := range del {
+		if x.Offset != victim {
+			cfail("safety", "Delete(%d) in a damaged segment reported offset %d", victim, x.Offset)
+		}
+		gone[x.Offset] = true
+	}
+	for _, cl := range calls {
+		got := cl.run(l)
+		for _, g := range got.msgs {
+			x, ok := m.Find(g.Offset)
+			if !ok || !x.Eq(g) || gone[g.Offset] {
+				cfail("safety", "after Delete(%d) in the damaged segment (result %v), %v returned %+v; published at that offset: %+v (live=%v, deleted now=%v)", victim, err, cl, FromMessage(g), x, ok, gone[g.Offset])
+			}
+		}
+	}
 }
 
 func keysOf(m map[int64]bool) []int64 {
